@@ -87,6 +87,7 @@ type World struct {
 	docs  map[string]map[string]any // address -> document as its home serves it
 	redir map[string]string
 	raw   map[string][]byte // address -> raw response (for Gone kinds)
+	QueryIDs bool           // addresses of the form /profile?user=x, /post?id=y: objects on one host share their path
 	Stamp bool              // add _servedBy to every object when serving
 	Hits  map[string]int
 }
@@ -117,6 +118,9 @@ func (w *World) host(i int) string { return w.Hosts[i%len(w.Hosts)] }
 func (w *World) NewActor(host string) *Node {
 	l := w.label("A")
 	n := &Node{Kind: "actor", Label: l, Host: host, ID: "https://" + host + "/users/" + strings.ToLower(l), ActorType: "Person"}
+	if w.QueryIDs {
+		n.ID = "https://" + host + "/profile?user=" + strings.ToLower(l)
+	}
 	w.Nodes = append(w.Nodes, n)
 	return n
 }
@@ -124,6 +128,9 @@ func (w *World) NewActor(host string) *Node {
 func (w *World) NewPost(host string) *Node {
 	l := w.label("P")
 	n := &Node{Kind: "post", Label: l, Host: host, ID: "https://" + host + "/posts/" + strings.ToLower(l), PostType: "Note", Body: "<p>text of " + strings.ToLower(l) + "</p>", BodyType: "text/html"}
+	if w.QueryIDs {
+		n.ID = "https://" + host + "/post?id=" + strings.ToLower(l)
+	}
 	w.Nodes = append(w.Nodes, n)
 	return n
 }
@@ -131,6 +138,9 @@ func (w *World) NewPost(host string) *Node {
 func (w *World) NewActivity(host, kind string, actor, object *Edge) *Node {
 	l := w.label("V")
 	n := &Node{Kind: "activity", Label: l, Host: host, ID: "https://" + host + "/activities/" + strings.ToLower(l), ActKind: kind, Actor: actor, Object: object}
+	if w.QueryIDs {
+		n.ID = "https://" + host + "/activity?id=" + strings.ToLower(l)
+	}
 	w.Nodes = append(w.Nodes, n)
 	return n
 }
